@@ -502,7 +502,7 @@ func init() {
 func TestC09(t *testing.T) {
 	rig.Main(t, "C09", "rapid: 80 random header bytes (versions 1/2/3 forced about one third each) inside images of 1-8 banks plus optional tail; "+
 		"oracles: image unchanged after NewROM+WriteHeader, 80-byte serialisation parses back DeepEqual, every exported leaf field equals the "+
-		"little-endian bytes at its documented address (independent table), version rule, and a drawn single-byte change alters exactly the covering field. "+
+		"little-endian bytes at its documented address (independent table), version rule, and a drawn single-byte change alters exactly the covering field; the same ROM object is re-read after ROM.Header was cleared, a write-back fails (HeaderOffset beyond the image) before another round trip, and a ROM put together as a struct literal writes its header back. "+
 		"Every case is non-trivial; distinct = hash(header bytes, size, flip).",
 		func(r *rig.Run) {
 			ev := r.Ev
